@@ -259,10 +259,11 @@ def _cases(tier, rng):
         res = [rng.choice(['r%d' % i, i * 10, True]) for i in range(k)]
         val = rng.choice([keys[0] - 1, keys[-1] + 1, rng.choice(keys), rng.choice(keys) + 0.25])
         out.append(('lookup', 'LOOKUP', val, (keys, res), 0, True))
-    crits = [2, 0, '>1', '>=2', '<2', '<=2', '<>2', '=2', 'a', 'A', '<>a', '=b', 'a*', '?b', '*', '<>a*', True, '>a', '<b']
+    crits = [2, 0, '>1', '>=2', '<2', '<=2', '<>2', '=2', 'a', 'A', '<>a', '=b', 'a*', '?b', '*', '<>a*', True, '>a', '<b',
+             '=a*', '=?b', '=*b', '=a~*', 'a~*', '=*', '=3.5', '>=a', '<=ab', '=TRUE', '<>']
     for _ in range(n):
         k = rng.randrange(1, 7)
-        cells = [rng.choice([1, 2, 2, 3.5, -1, 'a', 'A', 'b', 'ab', 'cb', True, False, sh.EMPTY]) for _ in range(k)]
+        cells = [rng.choice([1, 2, 2, 3.5, -1, 'a', 'A', 'b', 'ab', 'cb', 'a*', True, False, sh.EMPTY]) for _ in range(k)]
         sums = [rng.choice([1, 2, 10, 0.5, 'x', sh.EMPTY, -4]) for _ in range(k)]
         out.append(('crit', cells, rng.choice(crits), sums))
     return out
